@@ -33,10 +33,23 @@ package ocirequest
 //@   (isManifestKind(r.Kind) ==> (r.Tag != "") != (r.Digest != "")) &&
 //@   (!isManifestKind(r.Kind) ==> r.Tag == "")
 
+//@ invariant (*Request) self != nil
 //@ func parse
 //@   requires u != nil
 //@   ensures[valid-names-only] result.1 == nil ==> validRequest(result.0)
 //@   ensures[error-means-nil] result.1 != nil ==> result.0 == nil
+// C03: the fields parse extracts reconstruct the path it was given (the
+// server-side half of "one Request value is rendered to a URL by the client
+// and parsed back by the server"); the repository is everything between
+// "/v2/" and the routing word, not a shorter prefix.
+//@   ensures[blob-path-reconstructs] result.1 == nil && (result.0.Kind == ReqBlobGet || result.0.Kind == ReqBlobHead || result.0.Kind == ReqBlobDelete) ==>
+//@     u.Path == "/v2/" + result.0.Repo + "/blobs/" + result.0.Digest
+//@   ensures[upload-path-reconstructs] result.1 == nil && (result.0.Kind == ReqBlobUploadInfo || result.0.Kind == ReqBlobUploadChunk || result.0.Kind == ReqBlobCompleteUpload) ==>
+//@     u.Path == "/v2/" + result.0.Repo + "/blobs/uploads/" + last
+//@   ensures[manifest-path-reconstructs] result.1 == nil && (result.0.Kind == ReqManifestGet || result.0.Kind == ReqManifestHead || result.0.Kind == ReqManifestPut || result.0.Kind == ReqManifestDelete) ==>
+//@     u.Path == "/v2/" + result.0.Repo + "/manifests/" + result.0.Digest + result.0.Tag
+//@   ensures[start-upload-path-reconstructs] result.1 == nil && (result.0.Kind == ReqBlobStartUpload || result.0.Kind == ReqBlobUploadBlob || result.0.Kind == ReqBlobMount) ==>
+//@     u.Path == "/v2/" + result.0.Repo + "/blobs/uploads/" || u.Path == "/v2/" + result.0.Repo + "/blobs/uploads"
 
 //@ func Parse
 //@   requires u != nil
